@@ -30,6 +30,10 @@
      RegisterXFunction, RegisterXTest, RegisterValidatorTag, RegisterValidatorAlias   exported start-up registration; in the
                                                library only reachable from init(); documented as configuration
      utils/smtpx SetSender                     test hook replacing the SMTP sender *)
+(* al_mutators (type of a package-level instance, mutating method):
+     baseValue.SetDeprecated (promoted into every XValue type)   its three callers apply it to a value they have just built:
+        flows/results.go:86-90 (types.NewXArray), flows/runs/legacy.go:55 (types.NewXObject), flows/runs/summary.go:74 (types.NewXText),
+        flows/services.go:77 (types.JSONToXValue, which always allocates); never to XObjectEmpty / XTextEmpty / ... *)
 From Coq Require Import List String.
 From Verif Require Import model.Conc.
 Import ListNotations.
@@ -55,5 +59,10 @@ Definition shared_state_allow : allow_lists := {|
     ("flows/modifiers", "FieldModifier.Apply"); ("flows/runs", "run.SaveResult") ];
   al_global_writes := [
     ("excellent/functions", "RegisterXFunction"); ("flows/routers/cases", "RegisterXTest");
-    ("utils", "RegisterValidatorTag"); ("utils", "RegisterValidatorAlias"); ("utils/smtpx", "SetSender") ]
+    ("utils", "RegisterValidatorTag"); ("utils", "RegisterValidatorAlias"); ("utils/smtpx", "SetSender") ];
+  al_mutators := [
+    ("excellent/types.XArray", "baseValue.SetDeprecated"); ("excellent/types.XBoolean", "baseValue.SetDeprecated");
+    ("excellent/types.XDateTime", "baseValue.SetDeprecated"); ("excellent/types.XDate", "baseValue.SetDeprecated");
+    ("excellent/types.XNumber", "baseValue.SetDeprecated"); ("excellent/types.XObject", "baseValue.SetDeprecated");
+    ("excellent/types.XText", "baseValue.SetDeprecated"); ("excellent/types.XTime", "baseValue.SetDeprecated") ]
 |}.
